@@ -9,8 +9,8 @@ ID = "C11"
 LEVEL = "exploration"
 RULE = ("cases are import graphs (DAGs) over up to 4 (quick) / 5 (thorough) modules with entry m0: every edge is `import m`, "
         "`import a, b from m`, the type-only `import type T from m` or the mixed `import type T, a, b from m`, each import statement sits at a chosen position among the importer's side-effecting top-level "
-        "statements and is followed by a call that bumps the imported module's counter (or, for a type-only import, a declaration that uses the type); modules live flat or partly in a "
-        "sub-directory, paths optionally spelled with `./`; every module exports a bump function, a getter, a list and a scalar "
+        "statements and is followed by a call that bumps the imported module's counter (or, for a type-only import, a declaration that uses the type); modules live flat, partly in a "
+        "sub-directory, in alternating directories that reach each other through `../`, or each in a directory of its own under a file name shared with other modules and with the entry (`d1/main.ms`, `d2/u.ms`, `d3/u.ms`); paths optionally spelled with `./`; every module exports a bump function, a getter, a list and a scalar "
         "and keeps one private name. Enumerated: all DAGs over <= 3 modules x all four import forms per edge x 2 placements; random: "
         "Hypothesis graphs. Oracle: a depth-first simulation (each module once, at its first executed import, completed before "
         "the importer continues; one counter per module shared by all importers) prescribes the exact trace, checked under `run` "
@@ -23,11 +23,32 @@ def mod_path(k, layout):
     """path of module k relative to the entry's directory"""
     if k == 0:
         return "main.ms"
+    if layout == "twin":
+        # the SAME file name in different directories (one of them the entry's own name): different modules all the same
+        return "d1/main.ms" if k == 1 else "d%d/u.ms" % k
     if layout == "sub" and k >= 2:
         return "lib/m%d.ms" % k
     if layout == "alt" and k % 2 == 1:
         return "lib/m%d.ms" % k          # odd modules in lib/: they reach the even ones through `../`
     return "m%d.ms" % k
+
+
+def stem(k, layout):
+    """the name `import <path>` binds module k to"""
+    return os.path.basename(mod_path(k, layout))[:-3]
+
+
+def twin_edges(edges):
+    """in the twin layout several modules share a stem, and an importer can bind a stem only once (a second `import d3/u` is a
+    diagnostic): the first module an importer takes in module form keeps that form, other modules are taken by names"""
+    out, bound = [], {}
+    for (i, j, form, slot, dot) in sorted(edges, key=lambda e: (e[0], e[3], e[1])):
+        if form == "module" and bound.setdefault((i, "main" if j == 1 else "u"), j) != j:
+            if any(e[0] == i and e[1] == j and e[2] in ("names", "mixed") for e in list(edges) + out):
+                continue                 # the importer takes these names already: importing a name twice is a diagnostic too
+            form = "names"
+        out.append((i, j, form, slot, dot))
+    return out
 
 
 def import_path(src, dst, layout, dot):
@@ -43,11 +64,13 @@ def import_path(src, dst, layout, dot):
 def build(case):
     """case = {"n", "edges": [(i, j, form, slot, dot)], "layout"} -> (files, expected trace lines)"""
     n, layout = case["n"], case["layout"]
+    all_edges = twin_edges(case["edges"]) if layout == "twin" else case["edges"]
+    M = lambda k: stem(k, layout)
     # what a module exports: "full" (counter, bump, getter, list), "const" (one constant), "none" (nothing: side effects only)
     prof = {int(k): v for k, v in (case.get("profiles") or {}).items()}
     P = lambda k: prof.get(k, "full")
     infn = [list(x) for x in (case.get("infn") or [])]
-    by_src = {k: sorted([e for e in case["edges"] if e[0] == k], key=lambda e: (e[3], e[1])) for k in range(n)}
+    by_src = {k: sorted([e for e in all_edges if e[0] == k], key=lambda e: (e[3], e[1])) for k in range(n)}
     files = {}
     for k in range(n):
         lines = []
@@ -57,17 +80,17 @@ def build(case):
             if [i, j, form] in infn and P(j) == "full":
                 # the import statement sits inside a function of the importer and runs when that function is called
                 if form == "module":
-                    slots[slot].append("ld_%d_%d = fn() -> int {\n\timport %s\n\treturn m%d.bump_%d()\n}" % (i, j, p, j, j))
+                    slots[slot].append("ld_%d_%d = fn() -> int {\n\timport %s\n\treturn %s.bump_%d()\n}" % (i, j, p, M(j), j))
                 else:
                     slots[slot].append("ld_%d_%dn = fn() -> int {\n\timport bump_%d, get_%d from %s\n\treturn bump_%d()\n}" % (i, j, j, j, p, j))
                 slots[slot].append("print \"m%d->m%d \" + ld_%d_%d%s()" % (i, j, i, j, "" if form == "module" else "n"))
                 continue
             if P(j) != "full":
                 slots[slot].append("import %s" % p)
-                slots[slot].append("print \"m%d->m%d\"%s" % (i, j, (" + m%d.tag_%d" % (j, j)) if P(j) == "const" else ""))
+                slots[slot].append("print \"m%d->m%d\"%s" % (i, j, (" + %s.tag_%d" % (M(j), j)) if P(j) == "const" else ""))
             elif form == "module":
                 slots[slot].append("import %s" % p)
-                slots[slot].append("print \"m%d->m%d \" + m%d.bump_%d()" % (i, j, j, j))
+                slots[slot].append("print \"m%d->m%d \" + %s.bump_%d()" % (i, j, M(j), j))
             elif form == "type":
                 # only a TYPE is imported: the module must be initialised by this statement all the same
                 slots[slot].append("import type T_%d from %s" % (j, p))
@@ -103,9 +126,9 @@ def build(case):
                 if form == "type":
                     continue
                 if form == "module":
-                    lines.append("print \"final m%d \" + m%d.get_%d()" % (j, j, j))
-                    lines.append("print m%d.items_%d" % (j, j))
-                    lines.append("print m%d.counter_%d" % (j, j))
+                    lines.append("print \"final m%d \" + %s.get_%d()" % (j, M(j), j))
+                    lines.append("print %s.items_%d" % (M(j), j))
+                    lines.append("print %s.counter_%d" % (M(j), j))
                 else:
                     lines.append("print \"final m%d \" + get_%d()" % (j, j))
             lines.append("print \"@end\"")
@@ -277,6 +300,13 @@ def enumerated(tier, seed):
                 for placement in (0, 1):
                     edges = [(i, j, f, (placement + b) % 3, False) for b, ((i, j), f) in enumerate(zip(es, forms))]
                     cases.append({"n": n, "edges": edges, "layout": "flat"})
+        # the same graphs laid out over directories: odd modules in lib/ reaching the others through `../` ("alt"), and every
+        # module in a directory of its own under a file name it SHARES with other modules / with the entry ("twin")
+        for es in all_dags(n):
+            for forms in itertools.product(["module", "names"], repeat=len(es)):
+                for layout in ("alt", "twin"):
+                    edges = [(i, j, f, b % 3, False) for b, ((i, j), f) in enumerate(zip(es, forms))]
+                    cases.append({"n": n, "edges": edges, "layout": layout})
         # the same graphs with every import statement of one importer placed inside a function of that importer
         for es in all_dags(n):
             for form in ("module", "names"):
@@ -318,10 +348,14 @@ def graphs(draw):
     infn = [[e[0], e[1], e[2]] for e in edges if e[2] in ("module", "names") and g.chance(15)]
     # one name per importer: an edge inside a function needs its (importer, imported, form) to be unique
     infn = [x for x in infn if sum(1 for e in edges if [e[0], e[1], e[2]] == x) == 1]
+    layout = g.choice(["flat", "flat", "sub", "alt", "twin"])
+    if layout == "twin":
+        g.label("same-file-name-in-several-directories")
+        return {"n": n, "edges": edges, "layout": layout, "profiles": {}}
     if infn:
         g.label("import-inside-function")
-        return {"n": n, "edges": edges, "layout": g.choice(["flat", "flat", "sub"]), "profiles": profiles, "infn": infn}
-    return {"n": n, "edges": edges, "layout": g.choice(["flat", "flat", "sub"]), "profiles": profiles}
+        return {"n": n, "edges": edges, "layout": layout, "profiles": profiles, "infn": infn}
+    return {"n": n, "edges": edges, "layout": layout, "profiles": profiles}
 
 
 def strategy(tier):
